@@ -308,6 +308,7 @@ func (c *Ctx) Finish() {
 		code = 2
 	}
 	cleanupScratch()
+	profStop()
 	os.Exit(code)
 }
 
